@@ -12,7 +12,7 @@ import pnr_gen
 from lib import zlit, vlist
 
 LEVEL = "proof"
-UNITS = ["GenNetwork", "GenTable", "GenTableEnums", "GenRouter", "GenGeometryLinks", "GenGeometry"]
+UNITS = ["GenNetwork", "GenTable", "GenTableEnums", "GenRouter", "GenGeometryLinks", "GenGeometry", "GenPipeline"]
 PLACERS = ["sequential", "hilbert", "rcm", "breadth_first", "rand", "sa_c", "sa_py"]
 VEC = [(1, 0), (1, 1), (0, 1), (-1, 0), (-1, -1), (0, -1)]
 
